@@ -477,6 +477,9 @@ def translate_table(repo):
     """Scheduler.__str__ of both front ends: columns, names, cells"""
     import py2v_table as T
     out = []
+    upath = os.path.join(repo, "scheduler/base/scheduler_util.py")
+    CURFILE[0] = upath
+    T.check_tzname(ast.parse(open(upath).read()))
     for rel, skel, prefix, w in (("scheduler/threading/scheduler.py", T.SKELETON_THR, "thr", True),
                                  ("scheduler/asyncio/scheduler.py", T.SKELETON_AIO, "aio", False)):
         path = os.path.join(repo, rel)
@@ -576,7 +579,38 @@ JOB_WRAPPERS = {
     "timedelta": ("dt_stamp", "with self.__lock:\n    return super().timedelta(dt_stamp)\n"),
     "datetime": (None, "with self.__lock:\n    return super().datetime\n"),
     "_calc_next_exec": ("ref_dt", "with self.__lock:\n    super()._calc_next_exec(ref_dt)\n"),
+    "has_attempts_remaining": (None, "with self.__lock:\n    return super().has_attempts_remaining\n"),
 }
+
+
+def check_job_init(repo):
+    """threading Job.__init__ hands every argument unchanged to BaseJob.__init__ (positionals in order, every
+    keyword-only parameter but `weight` under its own name), then creates its lock and stores the weight; the
+    asyncio Job has no __init__ of its own.  Recognised by a template derived from the signature."""
+    import py2v_methods as M
+    path = os.path.join(repo, "scheduler/threading/job.py")
+    CURFILE[0] = path
+    fd = M.find_method(ast.parse(open(path).read()), "Job", "__init__")
+    pos = [a.arg for a in fd.args.args[1:]]
+    kwo = [a.arg for a in fd.args.kwonlyargs]
+    if pos != ["job_type", "timing", "handle"] or "weight" not in kwo or fd.args.vararg or fd.args.kwarg:
+        fail(fd, "threading Job.__init__ signature")
+    text = "super().__init__(%s)\nself.__lock = threading.RLock()\nself.__weight = weight\n" % ", ".join(
+        pos + ["%s=%s" % (k, k) for k in kwo if k != "weight"])
+    body = [b for b in fd.body if not (isinstance(b, ast.Expr) and isinstance(b.value, ast.Constant) and isinstance(b.value.value, str))]
+    if ast.dump(ast.Module(body=body, type_ignores=[])) != ast.dump(ast.parse(text)):
+        fail(fd, "threading Job.__init__ must pass its arguments unchanged to BaseJob.__init__")
+    bpath = os.path.join(repo, "scheduler/base/job.py")
+    bfd = M.find_method(ast.parse(open(bpath).read()), "BaseJob", "__init__")
+    if [a.arg for a in bfd.args.kwonlyargs] != [k for k in kwo if k != "weight"] or [a.arg for a in bfd.args.args[1:]] != pos:
+        fail(fd, "threading Job.__init__ and BaseJob.__init__ take different parameters")
+    apath = os.path.join(repo, "scheduler/asyncio/job.py")
+    CURFILE[0] = apath
+    for c in ast.parse(open(apath).read()).body:
+        if isinstance(c, ast.ClassDef) and c.name == "Job":
+            for st in c.body:
+                if isinstance(st, (ast.FunctionDef, ast.AsyncFunctionDef)) and st.name not in ("_exec", "__repr__"):
+                    fail(st, "asyncio Job overrides %s" % st.name)
 
 
 def check_job_wrappers(repo, names):
@@ -620,6 +654,8 @@ def translate_sched(repo):
 def translate_jobinit(repo):
     """BaseJob.__init__ (needs translate_jobutil's signatures)"""
     import py2v_methods as M
+    check_job_init(repo)
+    check_job_wrappers(repo, ["has_attempts_remaining"])
     import py2v_objs as O
     if not JOBUTIL_KNOWN:
         translate_jobutil(repo)
